@@ -37,7 +37,7 @@ META = {
          "Every attribute class x every subset of optional fields x value vectors round-trips attribute->bytes->attribute, and reference-built protobufs round-trip proto->attribute->proto by value.",
          "Pure-python protobuf trusted; values from finite alphabets.", "3/C10"),
  "C11": ("model_checking", "controlled-scheduler exploration of sender-thread interleavings (preemption-bounded) with a strict decrypting peer",
-         "2-4 sender threads run through the real coder/noise/segments/network layers under the harness scheduler; every interleaving up to the preemption bound is executed and the wire byte stream is parsed and decrypted in order by a strict peer (quick: bound 1; thorough: bound 1 on 14 configurations, line-granularity points on the small ones, bound 2 on the 10 configurations whose space completes).",
+         "2-4 sender threads run through the real coder/noise/segments/network layers under the harness scheduler; every interleaving up to the preemption bound is executed and the wire byte stream is parsed and decrypted in order by a strict peer (quick: bound 1; thorough: bound 1 on 14 configurations, line-granularity points on the small ones, bound 2 on the configurations whose space completes); a second part runs the real asyncore dispatcher over a scripted socket (short writes) with a sender thread against the dispatcher's loop thread at statement granularity.",
          "Scheduling points at lock/queue/layer-call granularity; environment points between socket events.", "3/C11"),
  "C12": ("fault_enumeration", "fault-site x position x follow-up enumeration with controlled-scheduler exploration of follow-up threads",
          "For every layer of the stack, direction and position in a short operation sequence a failure is injected (or provoked naturally); follow-ups from the same and other threads must complete and all locks be free; interleavings explored up to the preemption bound.",
